@@ -55,7 +55,7 @@ def grid_scenario(rng, key, family=None, fault_kinds=("none",), np_choices=(2, 3
     # tuning knobs vary too: parallel == serial must hold for any options
     from .histsim import swarm
 
-    swarm(rng, sc["options"])
+    swarm(rng, sc["options"], sc.get("geometry"))
     kind, bug, clk, opts = fault_plan(rng, key, fault_kinds, kind=fault_kind)
     sc["options"].update(opts)
     sc["fault_kind"] = kind
@@ -76,4 +76,8 @@ def c13_grid_case(verif_seed, index, quick=False):
         fam = "tok-nonorth"  # double nulls, non-orthogonal: wall intersections, regrids
     kind = ("none", "fallback", "none", "exhaust", "timeout")[index % 5]
     sc = grid_scenario(rng, seed, family=fam, fault_kind=kind)
+    if sc["family"] == "tok" and sc["geometry"] in ("lsn", "usn") and (index // 4) % 2 == 0:
+        # the other interpolant: the equilibrium that reaches the workers (pickled with
+        # dill) must interpolate exactly as the caller's does
+        sc["options"]["psi_interpolation_method"] = "dct"
     return {"index": index, "scenario": sc, "seed": seed}
